@@ -28,7 +28,7 @@ def gen(ctx, rng, per):
         # start-up rejected now and then - the roll-back paths
         if solver in ("bdf6", "bdf2", "adams5", "adams3"):
             for amp in (1.0, 30.0):
-                for _ in range(max(2, per) if solver.startswith("bdf") else max(1, per // 2)):
+                for _ in range(max(2, per) if solver.startswith("bdf") else max(3, per)):
                     tol = 10.0 ** (-rng.uniform(5, 9))
                     c = ivpgen.accuracy_case(rng, solver, ["grow"], tol, dim=rng.randint(1, 2), span=rng.uniform(2.5, 3.0))
                     # the larger start is not compensated in the step bound here: the growth itself (e^3) already takes the
@@ -54,6 +54,15 @@ def gen(ctx, rng, per):
                 amp = rng.choice([100.0, 1000.0])
                 c["y0"] = [ivpgen.cpair(amp * vlib.pair_to_float(z[0])) for z in c["y0"]]
                 c["dtmin"] = vlib.float_to_pair(vlib.pair_to_float(c["dtmax"]) * rng.uniform(0.3, 0.7))
+                c["acc"] = "local"
+                cases.append(c)
+        if solver in ("adams5", "adams3"):
+            # a pure forcing y' = a cos(w t + p) over more than a period: the estimate passes through zero, the step is doubled
+            # (history cleared, fresh start-up) and the confirming step is then rejected where the estimate is large again - the
+            # state must be rolled back to the start of that start-up, not to an earlier restart point
+            for _ in range(max(4, per)):
+                tol = 10.0 ** (-rng.uniform(5, 9))
+                c = ivpgen.accuracy_case(rng, solver, ["forcing"], tol, dim=1, span=rng.uniform(4.0, 6.5))
                 c["acc"] = "local"
                 cases.append(c)
         if solver in ("adams5", "adams3"):
